@@ -17,6 +17,7 @@ package lifecycle
 import (
 	"bytes"
 	"context"
+	"sync"
 
 	"github.com/conduitio/conduit-commons/opencdc"
 	"github.com/conduitio/conduit/pkg/foundation/cerrors"
@@ -30,6 +31,9 @@ type DLQDestination struct {
 	Destination stream.Destination
 	Logger      log.CtxLogger
 
+	// m guards lastPosition: Close can run (node shutdown) while a Write
+	// issued by a nack handler is still in flight.
+	m            sync.Mutex
 	lastPosition opencdc.Position
 }
 
@@ -47,7 +51,9 @@ func (d *DLQDestination) Write(ctx context.Context, rec opencdc.Record) error {
 		return err
 	}
 
+	d.m.Lock()
 	d.lastPosition = rec.Position
+	d.m.Unlock()
 
 	ack, err := d.Destination.Ack(ctx)
 	if err != nil {
@@ -68,7 +74,10 @@ func (d *DLQDestination) Write(ctx context.Context, rec opencdc.Record) error {
 
 // Close stops the destination and tears it down.
 func (d *DLQDestination) Close(ctx context.Context) (err error) {
-	stopErr := d.Destination.Stop(ctx, d.lastPosition)
+	d.m.Lock()
+	lastPosition := d.lastPosition
+	d.m.Unlock()
+	stopErr := d.Destination.Stop(ctx, lastPosition)
 	if stopErr != nil {
 		defer func() {
 			if err == nil {
